@@ -3,7 +3,7 @@
 //! (derive / commit determinism, bulletproof create / verify / rewind), and the transaction /
 //! coinbase builder.
 //!
-//! modes (argv[1]): codec | arith | crypto | build
+//! modes (argv[1]): codec | arith | crypto | build | viewkey | history
 use std::convert::TryFrom;
 use std::panic::AssertUnwindSafe;
 
@@ -1338,6 +1338,446 @@ fn builder(out: &mut Out, rng: &mut Rng, thorough: bool) {
 	out.raw(&format!("#STAT build distribution={:?}", stat));
 }
 
+// ---------------------------------------------------------------------------------------------
+// view keys made from a privately derived child (any depth, hardened account words)
+// ---------------------------------------------------------------------------------------------
+
+fn hardened_word(rng: &mut Rng) -> u32 {
+	match rng.below(5) {
+		0 => 0x8000_0000,
+		1 => 0x8000_0000 + rng.range(1, 20) as u32,
+		2 => 0xffff_ffff,
+		3 => 0x8000_0000 | (rng.next() as u32),
+		_ => 0x8000_0001,
+	}
+}
+
+fn normal_word(rng: &mut Rng) -> u32 {
+	match rng.below(5) {
+		0 => 0,
+		1 => rng.range(1, 20) as u32,
+		2 => 0x7fff_ffff,
+		3 => (rng.next() as u32) & 0x7fff_ffff,
+		_ => 1,
+	}
+}
+
+fn word_flags(w: &[u32]) -> String {
+	w.iter().map(|x| if x & 0x8000_0000 != 0 { 'h' } else { 'n' }).collect()
+}
+
+/// identifier of depth `words.len()` whose unused trailing words are arbitrary (they are carried in
+/// the message and must come back unchanged, but are not key material)
+fn id_from_words(rng: &mut Rng, words: &[u32]) -> Identifier {
+	let mut w = [0u32; 4];
+	for i in 0..4 {
+		w[i] = if i < words.len() {
+			words[i]
+		} else {
+			match rng.below(3) {
+				0 => 0,
+				1 => rng.next() as u32,
+				_ => hardened_word(rng),
+			}
+		};
+	}
+	ExtKeychain::derive_key_id(words.len() as u8, w[0], w[1], w[2], w[3])
+}
+
+fn viewkey(out: &mut Out, rng: &mut Rng, thorough: bool) {
+	let secp = Secp256k1::with_caps(secp::ContextFlag::Commit);
+	let n_seeds = if thorough { 6 } else { 2 };
+	let mut stat: std::collections::BTreeMap<String, u64> = Default::default();
+	macro_rules! bump {
+		($k:expr) => {
+			*stat.entry($k).or_insert(0) += 1
+		};
+	}
+	let (mut n_check, mut n_rewind, mut proofs, mut known_zero, mut known_regular) = (0u64, 0u64, 0u64, 0u64, 0u64);
+	for si in 0..n_seeds {
+		let seed = rng.bytes(32);
+		let is_test = si % 2 == 0;
+		let keychain = ExtKeychain::from_seed(&seed, is_test).unwrap();
+		let other = ExtKeychain::from_seed(&rng.bytes(32), is_test).unwrap();
+		let nb = ProofBuilder::new(&keychain);
+		// view-key paths: depth 0..=3, every hardened/normal pattern
+		let mut vk_paths: Vec<Vec<u32>> = vec![vec![]];
+		for d in 1..=3usize {
+			for pat in 0..(1u32 << d) {
+				let reps = if d == 1 { 3 } else { 1 };
+				for _ in 0..reps {
+					let p: Vec<u32> = (0..d)
+						.map(|i| if pat & (1 << i) != 0 { hardened_word(rng) } else { normal_word(rng) })
+						.collect();
+					vk_paths.push(p);
+				}
+			}
+		}
+		// the account of the property text: m/0'
+		vk_paths.push(vec![0x8000_0000]);
+		for vkp in &vk_paths {
+			let d = vkp.len();
+			let mut hasher = keychain.hasher();
+			let cnums: Vec<ChildNumber> = vkp.iter().map(|w| ChildNumber::from(*w)).collect();
+			let ext = keychain.master.derive_priv(keychain.secp(), &mut hasher, &cnums).unwrap();
+			let vk = ViewKey::create(&keychain, ext, &mut hasher, is_test).unwrap();
+			let vks = nat_list(&vkp.iter().map(|x| *x as u64).collect::<Vec<_>>());
+			let exp_child = cnums.last().cloned().unwrap_or(ChildNumber::from_normal_idx(0));
+			if vk.depth as usize != d || vk.child_number != exp_child {
+				out.raw(&format!(
+					"#ORACLE-FAIL C20 ViewKey::create from the private key at {} has depth {} child {:?}",
+					vks, vk.depth, vk.child_number
+				));
+			}
+			bump!(format!("vk depth={}", d));
+			bump!(format!("vk words={}", if d == 0 { "root".to_string() } else { word_flags(vkp) }));
+			for rem in 0..=(4 - d) {
+				// (class, words of the identifier)
+				let mut cases: Vec<(&'static str, Vec<u32>)> = vec![];
+				let r: Vec<u32> = (0..rem).map(|_| normal_word(rng)).collect();
+				let mut full = vkp.clone();
+				full.extend(&r);
+				cases.push(("covered", full.clone()));
+				if rem > 0 {
+					// a hardened step below the view key
+					let mut w = full.clone();
+					let j = d + rng.below(rem as u64) as usize;
+					w[j] = match rng.below(3) {
+						0 => w[j] | 0x8000_0000,
+						_ => hardened_word(rng),
+					};
+					cases.push(("hardened-below", w));
+				}
+				if d > 0 {
+					// another account: the last word of the view key's path differs
+					let mut w = full.clone();
+					w[d - 1] = match rng.below(3) {
+						0 => w[d - 1] ^ 0x8000_0000, // 0' vs 0
+						1 => w[d - 1] ^ 1,
+						_ => {
+							let x = rng.next() as u32;
+							if x == w[d - 1] {
+								x ^ 2
+							} else {
+								x
+							}
+						}
+					};
+					cases.push(("other-account", w));
+					if rem == 0 || rng.chance(1, 2) {
+						// shorter than the view key: a proper prefix of its path
+						let k = rng.below(d as u64) as usize;
+						cases.push(("shorter", vkp[..k].to_vec()));
+					}
+				}
+				if d > 1 {
+					// another branch that ends in the same child number (only the key comparison tells)
+					let mut w = full.clone();
+					let j = rng.below(d as u64 - 1) as usize;
+					w[j] = match rng.below(2) {
+						0 => w[j] ^ 0x8000_0000,
+						_ => w[j] ^ (1 << rng.below(31)),
+					};
+					cases.push(("other-branch-same-child", w));
+				}
+				for (class, words) in cases {
+					let id = id_from_words(rng, &words);
+					let idh = hex(&id.to_bytes());
+					let amounts: Vec<u64> = if class == "covered" {
+						vec![0, u64::MAX, 1, rng.next(), 1 << 63]
+					} else {
+						vec![u64::MAX, *rng.pick(&[0u64, 1, 1 << 32]), rng.next()]
+					};
+					for (ai, amount) in amounts.iter().enumerate() {
+						let amount = *amount;
+						let sws: &[SwitchCommitmentType] = if ai % 3 == 2 { &SWITCHES } else { &SWITCHES[..1] };
+						for sw in sws {
+							let sw = *sw;
+							bump!(format!("class={}", class));
+							bump!(format!("rem={}", rem));
+							bump!(format!("amount={}", amount_class(amount)));
+							bump!(format!("switch={}", sw_name(sw)));
+							let commit = keychain.commit(amount, &id, sw).unwrap();
+							let msg = nb.proof_message(&secp, &id, sw).unwrap();
+							let tag = format!(
+								"seed={} vk=m/{:?} id={} (words {:?}) class={} sw={} amount={}",
+								hex(&seed), vkp, idh, words, class, sw_name(sw), amount
+							);
+							// (1) check_output directly, on the honest message and (sampled) mutations
+							let muts = if rng.chance(1, 6) {
+								mutations(rng, msg.as_bytes(), words.len() as u8)
+							} else {
+								vec![("honest", msg.as_bytes().to_vec())]
+							};
+							for (mname, m) in muts {
+								let pm = ProofMessage::from_bytes(&m);
+								let r = check_str(catch(AssertUnwindSafe(|| vk.check_output(&secp, &commit, amount, pm.clone()))));
+								n_check += 1;
+								out.line(
+									&format!("keys vkcheck {} {} {} {} {}", vks, hex(&m), idh, sw_name(sw), amount),
+									&r,
+								);
+								if r == "panic" {
+									out.raw(&format!("#ORACLE-FAIL C20 ViewKey::check_output panicked: {} msg={}", tag, hex(&m)));
+								}
+								if mname != "honest" {
+									bump!(format!("mutated message:{}", r.split(' ').next().unwrap()));
+									continue;
+								}
+								bump!(format!("check {}:{}", class, r.split(' ').next().unwrap()));
+								let exact = format!("some {} none", idh);
+								if class == "covered" {
+									if sw == SwitchCommitmentType::None && amount != 0 {
+										if r != exact {
+											out.raw(&format!("#ORACLE-FAIL C20 matching view key does not recover the output (check_output => {}): {}", r, tag));
+										}
+									} else if r == "err" {
+										if amount == 0 {
+											known_zero += 1
+										} else {
+											known_regular += 1
+										}
+									} else if r != exact {
+										out.raw(&format!("#ORACLE-FAIL C20 view key returns a wrong answer (check_output => {}): {}", r, tag));
+									}
+								} else if r.starts_with("some") {
+									out.raw(&format!("#ORACLE-FAIL C20 view key recovers an output it must not cover (check_output => {}): {}", r, tag));
+								}
+							}
+							// the same identifier committed by another seed is never recovered
+							if ai == 1 {
+								let c2 = other.commit(amount, &id, sw).unwrap();
+								let r = check_str(catch(AssertUnwindSafe(|| vk.check_output(&secp, &c2, amount, msg.clone()))));
+								bump!(format!("check other-seed:{}", r.split(' ').next().unwrap()));
+								if r.starts_with("some") {
+									out.raw(&format!("#ORACLE-FAIL C20 view key recovers an output of another seed: {}", tag));
+								}
+							}
+							// (2) through a real bulletproof: proof::create with ProofBuilder, proof::rewind with the view key
+							let do_rewind = thorough
+								|| (class == "covered" && (ai == 1 || rng.chance(1, if ai == 0 { 2 } else { 4 })))
+								|| (class != "covered" && rng.chance(1, 6));
+							if do_rewind {
+								let proof = proof::create(&keychain, &nb, amount, &id, sw, commit, None).unwrap();
+								proofs += 1;
+								let r = rewind_str(catch(AssertUnwindSafe(|| proof::rewind(&secp, &vk, commit, None, proof))));
+								n_rewind += 1;
+								bump!(format!("rewind {}:{}", class, r.split(' ').next().unwrap()));
+								out.line(&format!("keys vkrewind {} {} {} {}", vks, idh, sw_name(sw), amount), &r);
+								let exact = format!("some {} none {}", idh, amount);
+								if r == "panic" {
+									out.raw(&format!("#ORACLE-FAIL C20 proof::rewind with a view key panicked: {}", tag));
+								} else if class == "covered" {
+									if sw == SwitchCommitmentType::None && amount != 0 {
+										if r != exact {
+											out.raw(&format!("#ORACLE-FAIL C20 matching view key does not rewind to exactly (amount, path, None) (=> {}): {}", r, tag));
+										}
+									} else if r != "err" && r != exact {
+										out.raw(&format!("#ORACLE-FAIL C20 view key rewinds to a wrong answer (=> {}): {}", r, tag));
+									}
+								} else if r.starts_with("some") {
+									out.raw(&format!("#ORACLE-FAIL C20 view key rewinds an output it must not cover (=> {}): {}", r, tag));
+								}
+							}
+						}
+					}
+				}
+			}
+		}
+	}
+	out.raw(&format!(
+		"#STAT viewkey seeds={} check_output calls={} rewinds through real bulletproofs={} bulletproofs created={}",
+		n_seeds, n_check, n_rewind, proofs
+	));
+	out.raw(&format!("#STAT viewkey distribution={:?}", stat));
+	if known_zero > 0 {
+		out.raw(&format!("#KNOWN-PROBE C20 view-key-zero-amount: a view key that covers the output (any depth, hardened account) returns Err for a zero-value output (ViewKey::commit calls secp.commit_value(0)); {} cases this run", known_zero));
+	}
+	if known_regular > 0 {
+		out.raw(&format!("#KNOWN-PROBE C20 view-key-regular: a view key that covers the output returns Err(SwitchCommitment) for a Regular switch-commitment output; {} cases this run", known_regular));
+	}
+}
+
+// ---------------------------------------------------------------------------------------------
+// determinism across the history of a keychain instance (and of its clones)
+// ---------------------------------------------------------------------------------------------
+
+fn history(out: &mut Out, rng: &mut Rng, thorough: bool) {
+	global::set_local_chain_type(ChainTypes::AutomatedTesting);
+	let secp = Secp256k1::with_caps(secp::ContextFlag::Commit);
+	let n_seeds = if thorough { 8 } else { 2 };
+	let mut stat: std::collections::BTreeMap<String, u64> = Default::default();
+	macro_rules! bump {
+		($k:expr) => {
+			*stat.entry($k).or_insert(0) += 1
+		};
+	}
+	let (mut n_cmp, mut n_same, mut proofs) = (0u64, 0u64, 0u64);
+	for si in 0..n_seeds {
+		let seed = rng.bytes(if si % 3 == 2 { 16 } else { 32 });
+		let is_test = si % 2 == 0;
+		let fresh = || ExtKeychain::from_seed(&seed, is_test).unwrap();
+		// families of identifiers that share their 16 path bytes and differ in the depth byte only
+		let mut families: Vec<[u32; 4]> = vec![[7, 0, 0, 0], [0, 0, 0, 0], [0x8000_0000, 0, 0, 0], [7, 7, 7, 7]];
+		for _ in 0..(if thorough { 6 } else { 1 }) {
+			families.push([rand_index(rng), rand_index(rng), rand_index(rng), rand_index(rng)]);
+		}
+		for (fi, w) in families.iter().enumerate() {
+			let ids: Vec<Identifier> = (0..=4u8).map(|d| ExtKeychain::derive_key_id(d, w[0], w[1], w[2], w[3])).collect();
+			bump!(format!("family={}", match fi { 0 => "m/7 m/7/0 ..", 1 => "root m/0 m/0/0 ..", 2 => "m/0' m/0'/0 ..", 3 => "m/7/7/7/7 prefixes", _ => "random words" }));
+			let amount = match fi % 4 {
+				0 => 0,
+				1 => u64::MAX,
+				2 => 1,
+				_ => rng.next(),
+			};
+			// reference values: one brand-new keychain per question, nothing derived before
+			struct Ref {
+				key: [Vec<u8>; 2],
+				commit: [Vec<u8>; 2],
+				proof: Vec<u8>,
+				reward: (Vec<u8>, Vec<u8>, Vec<u8>, Vec<u8>),
+			}
+			let mut refs: Vec<Ref> = vec![];
+			for id in &ids {
+				let mut key: [Vec<u8>; 2] = [vec![], vec![]];
+				let mut commit: [Vec<u8>; 2] = [vec![], vec![]];
+				for (k, sw) in SWITCHES.iter().enumerate() {
+					key[k] = fresh().derive_key(amount, id, *sw).unwrap().0.to_vec();
+					commit[k] = fresh().commit(amount, id, *sw).unwrap().0.to_vec();
+				}
+				let kc = fresh();
+				let c = kc.commit(amount, id, SwitchCommitmentType::Regular).unwrap();
+				let proof = proof::create(&kc, &ProofBuilder::new(&kc), amount, id, SwitchCommitmentType::Regular, c, None).unwrap();
+				let kc = fresh();
+				let (o, k) = reward::output(&kc, &ProofBuilder::new(&kc), id, amount % 1000, true).unwrap();
+				proofs += 2;
+				refs.push(Ref {
+					key,
+					commit,
+					proof: proof.bytes().to_vec(),
+					reward: (
+						o.commitment().0.to_vec(),
+						o.proof_bytes().to_vec(),
+						k.excess.0.to_vec(),
+						ser_sig(&k),
+					),
+				});
+			}
+			// distinct depths give distinct keys although the path bytes are equal
+			for a in 0..5usize {
+				for b in (a + 1)..5 {
+					if (a + b + fi) % 3 == 0 {
+						out.line(
+							&format!("keys samekey {} none {} none", hex(&ids[a].to_bytes()), hex(&ids[b].to_bytes())),
+							&(refs[a].key[0] == refs[b].key[0]).to_string(),
+						);
+					}
+				}
+			}
+			// orders in which one instance is asked
+			let mut orders: Vec<(&'static str, Vec<usize>)> = vec![
+				("ascending-depth", vec![0, 1, 2, 3, 4]),
+				("descending-depth", vec![4, 3, 2, 1, 0]),
+			];
+			for _ in 0..(if thorough { 4 } else { 1 }) {
+				let mut o: Vec<usize> = (0..5).collect();
+				shuffle(rng, &mut o);
+				// ask some identifiers twice
+				let extra = o[rng.below(5) as usize];
+				o.push(extra);
+				orders.push(("shuffled", o));
+			}
+			for (oname, order) in &orders {
+				bump!(format!("order={}", oname));
+				let inst = fresh();
+				let before = inst.clone();
+				let builder = ProofBuilder::new(&inst);
+				for (step, &i) in order.iter().enumerate() {
+					let id = &ids[i];
+					let idh = hex(&id.to_bytes());
+					let mut cmp = |kind: &str, sw: SwitchCommitmentType, same: bool, detail: String| {
+						n_cmp += 1;
+						if same {
+							n_same += 1;
+						}
+						out.line(
+							&format!("keys hist {} {}#{} {} {} {}", kind, oname, step, idh, sw_name(sw), amount),
+							if same { "same" } else { "differs" },
+						);
+						if !same {
+							out.raw(&format!(
+								"#ORACLE-FAIL C20 {} depends on what the keychain instance derived before: seed={} is_test={} order={:?} (indices into depths 0..4 of words {:?}) step={} id={} sw={} amount={} {}",
+								kind, hex(&seed), is_test, order, w, step, idh, sw_name(sw), amount, detail
+							));
+						}
+					};
+					for (k, sw) in SWITCHES.iter().enumerate() {
+						let got = inst.derive_key(amount, id, *sw).unwrap().0.to_vec();
+						cmp("derive", *sw, got == refs[i].key[k], format!("got={} fresh={}", hex(&got), hex(&refs[i].key[k])));
+						let got = inst.commit(amount, id, *sw).unwrap().0.to_vec();
+						cmp("commit", *sw, got == refs[i].commit[k], format!("got={} fresh={}", hex(&got), hex(&refs[i].commit[k])));
+					}
+					// proof creation, reward::output and rewind on the used instance (sampled: they are slow)
+					if thorough || step % 3 == 0 {
+						let sw = SwitchCommitmentType::Regular;
+						let c = inst.commit(amount, id, sw).unwrap();
+						let proof = proof::create(&inst, &builder, amount, id, sw, c, None).unwrap();
+						proofs += 1;
+						cmp("proof", sw, proof.bytes().to_vec() == refs[i].proof, String::new());
+						let rw = rewind_str(catch(AssertUnwindSafe(|| proof::rewind(&secp, &builder, c, None, proof))));
+						cmp("rewind", sw, rw == format!("some {} regular {}", idh, amount), format!("rewind={}", rw));
+						// a builder made from a clone taken after the history, and one from a fresh keychain
+						let cl = inst.clone();
+						let rw2 = rewind_str(catch(AssertUnwindSafe(|| proof::rewind(&secp, &ProofBuilder::new(&cl), c, None, proof))));
+						let fk = fresh();
+						let rw3 = rewind_str(catch(AssertUnwindSafe(|| proof::rewind(&secp, &ProofBuilder::new(&fk), c, None, proof))));
+						cmp("rewind-clone-fresh", sw, rw2 == rw && rw3 == rw, format!("clone={} fresh={}", rw2, rw3));
+						let (o, k) = reward::output(&inst, &builder, id, amount % 1000, true).unwrap();
+						proofs += 1;
+						let got = (o.commitment().0.to_vec(), o.proof_bytes().to_vec(), k.excess.0.to_vec(), ser_sig(&k));
+						cmp("reward", sw, got == refs[i].reward, String::new());
+					}
+				}
+				// clones: one taken before anything was derived, one after
+				let after = inst.clone();
+				for (cname, cl) in [("clone-before", &before), ("clone-after", &after)].iter() {
+					for (pos, &i) in order.iter().rev().enumerate() {
+						for (k, sw) in SWITCHES.iter().enumerate() {
+							let got_k = cl.derive_key(amount, &ids[i], *sw).unwrap().0.to_vec();
+							let got_c = cl.commit(amount, &ids[i], *sw).unwrap().0.to_vec();
+							let same = got_k == refs[i].key[k] && got_c == refs[i].commit[k];
+							n_cmp += 1;
+							if same {
+								n_same += 1;
+							}
+							out.line(
+								&format!("keys hist {} {}#{} {} {} {}", cname, oname, pos, hex(&ids[i].to_bytes()), sw_name(*sw), amount),
+								if same { "same" } else { "differs" },
+							);
+							if !same {
+								out.raw(&format!(
+									"#ORACLE-FAIL C20 derive_key/commit on a {} of a used keychain differs from a fresh keychain: seed={} is_test={} order={:?} words={:?} id={} sw={} amount={}",
+									cname, hex(&seed), is_test, order, w, hex(&ids[i].to_bytes()), sw_name(*sw), amount
+								));
+							}
+						}
+					}
+				}
+			}
+		}
+	}
+	out.raw(&format!(
+		"#STAT history seeds={} comparisons={} same={} bulletproofs created={}",
+		n_seeds, n_cmp, n_same, proofs
+	));
+	out.raw(&format!("#STAT history distribution={:?}", stat));
+}
+
+fn ser_sig(k: &TxKernel) -> Vec<u8> {
+	grin_core::ser::ser_vec(k, grin_core::ser::ProtocolVersion(2)).unwrap()
+}
+
 /// diagnostic (not part of the check): which single-bit flips of a bulletproof still verify
 fn malleable(out: &mut Out, rng: &mut Rng) {
 	let secp_v = Secp256k1::with_caps(secp::ContextFlag::Commit);
@@ -1374,6 +1814,8 @@ fn main() {
 		"arith" => arith(&mut out, &mut rng, thorough),
 		"crypto" => crypto(&mut out, &mut rng, thorough),
 		"build" => builder(&mut out, &mut rng, thorough),
+		"viewkey" => viewkey(&mut out, &mut rng, thorough),
+		"history" => history(&mut out, &mut rng, thorough),
 		"malleable" => malleable(&mut out, &mut rng),
 		_ => {
 			eprintln!("unknown mode {}", mode);
